@@ -771,7 +771,9 @@ def canon(res, colmap=None, ordered=False):
     cols = sorted(colmap.get("?" + str(v), "?" + str(v)) for v in (res.vars or []))
     rows = []
     for b in res.bindings:
-        rows.append(tuple(sorted((colmap.get("?" + str(k), "?" + str(k)), v.n3()) for k, v in b.items())))
+        # (a GROUP BY key without value shows up as a None binding: unbound)
+        rows.append(tuple(sorted((colmap.get("?" + str(k), "?" + str(k)), v.n3()) for k, v in b.items()
+                                 if v is not None)))
     if not ordered:
         rows.sort()
     return ("ok", tuple(cols), tuple(rows))
@@ -945,7 +947,8 @@ def run_impl(case):
                     for nm, rr, gg in (("A", r1, gA), ("B", r2, gB)):
                         res = gg.query(p)   # only for the column names
                         got = ("ok", tuple(sorted("?" + str(v) for v in res.vars)),
-                               tuple(sorted(tuple(sorted(("?" + str(k), v.n3()) for k, v in row.asdict().items()))
+                               tuple(sorted(tuple(sorted(("?" + str(k), v.n3()) for k, v in row.asdict().items()
+                                                         if v is not None))
                                             for row in rr)))
                         want = fresh[nm]
                         if want[0] == "ok":   # Result.__iter__ skips rows without any binding
@@ -1133,7 +1136,8 @@ def model_lines(case):
         return []
     q, data = case["q"], case["data"]
     vs = frag_vars(q)
-    lines = ["reset %d" % len(vs)]
+    lits = [TERM_NUM[k] for k in LITS]
+    lines = ["reset %d %d %d" % (len(vs), min(lits), max(lits))]
     if stream == "bgp":
         split = case["split"]
         for (s, p, o, _g), m in zip(data, split):
